@@ -558,6 +558,10 @@ func Main(prop string, o hx.Opts) {
 			}
 		}
 		Show(prop, string(b), lang, optStr, simp)
+	case "words":
+		Words(o.Seed, o.N)
+	case "queue":
+		Queue(o.Seed, o.N)
 	case "opts":
 		for _, r := range PairwiseOptSets(prop == "C01") {
 			hx.Emit(map[string]any{"row": r.String()})
